@@ -432,3 +432,4 @@ _reg(Profile(name="idle_steps", tmax_choices=(20, 40, 110), n_ranks=(1, 2), n_st
 _reg(Profile(name="queue", tmax_choices=(6, 8, 12, 20, 40), n_ranks=(1, 2), p_launch=0.7, p_mem_launch=0.4, p_same_ts_as_launch=0.45, p_missing_kernel=0.1,
              p_orphan_kernel=0.2, p_kernel_zero=0.15, n_streams=(1, 3), p_zero_dur=0.1, max_children=5))
 _reg(Profile(name="queue_wide", tmax_choices=(110, 600, 5000), n_ranks=(1, 2), p_launch=0.7, p_mem_launch=0.4, n_streams=(1, 3), n_steps=(0, 3)))
+_reg(Profile(name="meta", n_steps=(0, 3), n_ranks=(2, 3), tmax_choices=(12, 24, 40, 110), p_launch=0.55, p_mem_launch=0.35, p_orphan_kernel=0.2, p_sync=0.2))
